@@ -86,6 +86,11 @@ type Config struct {
 	// Critical: functions that get a yield between every two statements.
 	// Entries: "pkgsuffix:Func", "pkgsuffix:Type.Method", "pkgsuffix:Type.*", "pkgsuffix:*"
 	Critical []string `json:"critical"`
+	// CriticalOptional: like Critical, but the yields (simhook.YO) only count when the
+	// run asks for them. Used for the symbol table: its miss path executes more statements
+	// than its hit path, and which names are already interned depends on the history of
+	// the process, so always-on statement yields there make tick counts history dependent.
+	CriticalOptional []string `json:"critical_optional"`
 	// NoYield: package path suffixes that get no function-entry/loop yields.
 	NoYield    []string    `json:"no_yield"`
 	Failpoints []Failpoint `json:"failpoints"`
@@ -536,8 +541,18 @@ func criticalKey(pkgPath string, fd *ast.FuncDecl) string {
 			}
 		}
 	}
+	for _, c := range cfg.CriticalOptional {
+		for _, k := range cands {
+			if c == k {
+				optionalKeys[c] = true
+				return c
+			}
+		}
+	}
 	return ""
 }
+
+var optionalKeys = map[string]bool{}
 
 func simpleExpr(e ast.Expr) bool {
 	switch x := e.(type) {
@@ -838,6 +853,7 @@ func (c *fileCtx) processFile() {
 	}
 
 	var funcStack []string
+	yieldFn := "simhook.Y"
 
 	var visitStmts func(list []ast.Stmt, crit bool)
 	var visitNode func(n ast.Node, crit bool)
@@ -846,7 +862,7 @@ func (c *fileCtx) processFile() {
 		// statement-level handling for a statement that sits directly in a block
 		if crit && !isSimhookStmt(st) {
 			if _, isLabeled := st.(*ast.LabeledStmt); !isLabeled {
-				c.insert(st.Pos(), fmt.Sprintf("simhook.Y(%d);", c.label(st.Pos(), "stmt")))
+				c.insert(st.Pos(), fmt.Sprintf("%s(%d);", yieldFn, c.label(st.Pos(), "stmt")))
 				stats.StmtYields++
 			}
 		}
@@ -986,7 +1002,7 @@ func (c *fileCtx) processFile() {
 			if ls, ok := st.(*ast.LabeledStmt); ok {
 				// yield goes before the label; the rest applies to the inner statement
 				if crit {
-					c.insert(st.Pos(), fmt.Sprintf("simhook.Y(%d);", c.label(st.Pos(), "stmt")))
+					c.insert(st.Pos(), fmt.Sprintf("%s(%d);", yieldFn, c.label(st.Pos(), "stmt")))
 					stats.StmtYields++
 				}
 				inner = ls.Stmt
@@ -1195,7 +1211,11 @@ func (c *fileCtx) processFile() {
 			name = r + "." + name
 		}
 		funcStack = append(funcStack, name)
-		_, crit := critical[fd.Body]
+		critKey, crit := critical[fd.Body]
+		yieldFn = "simhook.Y"
+		if optionalKeys[critKey] {
+			yieldFn = "simhook.YO"
+		}
 		if yieldPkg && len(fd.Body.List) >= 2 {
 			c.insert(fd.Body.Lbrace+1, fmt.Sprintf("simhook.Y(%d);", c.label(fd.Pos(), "fn")))
 			stats.Yields++
